@@ -40,6 +40,9 @@ var corpus = []string{
 	"sl:6162636465666768 nst:0 lb:1 rr:2:2 mt:1:1:5 rr:2:2 lb:4 rr:6:1 rr:2:a rr:6:a sk:2:1:s rr:2:2 sk:2:1:c rr:2:a",
 	"sl:61626364 nby:0 nb:bytes an:2:1 bu:2 lb:4 lb:4 rr:5:1 rr:6:2 sk:5:0:e sk:5:0:s rr:6:a rr:5:a sk:6:-9:c",
 	"sl:616263 nby:0 lb:1 lb:1 rr:2:1 rr:3:a rr:2:a sk:3:1:s rr:3:1 fo:b6162 lb:9 ns:i1 lb:11",
+	// Props/C11.v C11_two_interleaved_readers: reader A read 3 bytes; reader B of the same node reads, the node is
+	// read through AsBytes / a subset match / the match result, B seeks to the end and reads; A goes on at "d"
+	"sl:6162636465666768 nst:0 lb:1! rr:2:3! lb:1! rr:4:2! mt:1:1:5 en:6 sk:4:0:e! rr:4:a! rr:2:2",
 	// misuse: BeginMap on a finished builder overwrites the built node's tables
 	"nb:map bm:0:1 ae:1:6b as:2:i1 fi:1 bu:0 bm:0:0",
 	// misuse: second Assign on a scalar builder writes through the built node
